@@ -76,12 +76,12 @@ func (context *CHFContext) NewCHFUe(supi string) (*ChfUe, error) {
 	if strings.HasPrefix(supi, "imsi-") {
 		ue := ChfUe{}
 		ue.init()
+		ue.Supi = supi
 
-		if supi != "" {
-			context.AddChfUeToUePool(&ue, supi)
-		}
+		// two concurrent creates for the same new SUPI must end up with the same context
+		actual, _ := context.UePool.LoadOrStore(supi, &ue)
 
-		return &ue, nil
+		return actual.(*ChfUe), nil
 	} else {
 		return nil, fmt.Errorf(" add Ue context fail ")
 	}
